@@ -814,6 +814,62 @@ func ruleCloseBoxes(p *Prog, r *Report, sp *ssa.Package) {
 			} else {
 				r.OK("CLOSE", key2, p.posStr(f.Pos()), "every path from the header to a return passes a close() made by ReadMetadata itself")
 			}
+			// and the path that is not a return: a panic in a handler unwinds past every close above and is turned into the
+			// returned error by the deferred recover frame - which must then close the box itself
+			key3 := "isobmff.(*Reader)." + entry + " | top-level box closed when a handler's panic is recovered"
+			recovers, closes := false, false
+			at3 := p.posStr(f.Pos())
+			eachInstr(f, func(_ *ssa.BasicBlock, _ int, in ssa.Instruction) {
+				df, ok := in.(*ssa.Defer)
+				if !ok {
+					return
+				}
+				mc, ok := df.Call.Value.(*ssa.MakeClosure)
+				if !ok {
+					return
+				}
+				fn, ok := mc.Fn.(*ssa.Function)
+				if !ok {
+					return
+				}
+				var fv ssa.Value
+				for i, bnd := range mc.Bindings {
+					if bnd == boxAlloc && i < len(fn.FreeVars) {
+						fv = fn.FreeVars[i]
+					}
+				}
+				var recBlocks []*ssa.BasicBlock
+				eachCall(fn, func(site ssa.CallInstruction) {
+					if bi, ok := site.Common().Value.(*ssa.Builtin); ok && bi.Name() == "recover" {
+						recovers = true
+						recBlocks = append(recBlocks, site.Block())
+						at3 = p.posStr(instrPos(site))
+					}
+				})
+				if fv == nil {
+					return
+				}
+				eachCall(fn, func(site ssa.CallInstruction) {
+					if !isBoxClose(site, fv) {
+						return
+					}
+					// under the "something was recovered" branch: dominated by the block that calls recover, and not that block's
+					// nil edge only - the test `state != nil` is what the branch is
+					for _, rb := range recBlocks {
+						if rb.Dominates(site.Block()) && rb != site.Block() {
+							closes = true
+						}
+					}
+				})
+			})
+			switch {
+			case !recovers:
+				r.OK("CLOSE", key3, at3, "no recover frame: a panic is not turned into a returned error here")
+			case closes:
+				r.OK("CLOSE", key3, at3, "the deferred recover frame closes the captured top-level box under the recovered branch")
+			default:
+				r.Bad("CLOSE", key3, at3, "the deferred function turns a handler's panic into the returned error but does not close the top-level box: the panic unwound past every close in the body, the reader is left inside the box and the next call parses payload bytes as a box header")
+			}
 		}()
 	}
 }
